@@ -741,13 +741,28 @@ func ruleAtOffset(p *core.Program) []core.Obligation {
 	// the select range: OriginalOffset and Timestamp, never Offset (which already contains the pin)
 	if fn := p.Func("execution", "getTimeRangesForVectorSelector"); fn != nil {
 		var fields []string
-		core.EachInstr(fn, func(b *ssa.BasicBlock, i int, ins ssa.Instruction) {
-			if v, ok := ins.(ssa.Value); ok {
-				if n, f, _, ok := core.FieldRef(v); ok && n != nil && n.Obj().Name() == "VectorSelector" {
-					fields = append(fields, f)
-				}
+		// the function and the helpers of the package it is split into
+		seenFn := map[*ssa.Function]bool{}
+		var collect func(f *ssa.Function, depth int)
+		collect = func(f *ssa.Function, depth int) {
+			if f == nil || f.Blocks == nil || seenFn[f] || depth > 2 || !p.InRepo(f) {
+				return
 			}
-		})
+			seenFn[f] = true
+			core.EachInstr(f, func(b *ssa.BasicBlock, i int, ins ssa.Instruction) {
+				if v, ok := ins.(ssa.Value); ok {
+					if n, fld, _, ok := core.FieldRef(v); ok && n != nil && n.Obj().Name() == "VectorSelector" {
+						fields = append(fields, fld)
+					}
+				}
+				if c, ok := ins.(*ssa.Call); ok {
+					if callee := c.Call.StaticCallee(); callee != nil && callee.Pkg == f.Pkg {
+						collect(callee, depth+1)
+					}
+				}
+			})
+		}
+		collect(fn, 0)
 		key := "execution.getTimeRangesForVectorSelector fields"
 		if contains(fields, "OriginalOffset") && contains(fields, "Timestamp") && !contains(fields, "Offset") {
 			obs = append(obs, core.Ob(rule, key, p.Pos(fn.Pos()), core.FuncName(fn), core.Held, "range from Timestamp and OriginalOffset"))
